@@ -99,13 +99,15 @@ Print Assumptions C17_read_never_panics.
    arbitrary): the incremental-search sub-loop (every key of the search, hits replacing the line, abort restoring
    the typed line and cutting the undo stack back to its mark -- which is then exactly the stack from before) and the
    completion sub-loops (circular: candidates shown in turn, the original again, abort; list: common prefix, listing,
-   paging question) included. In vi mode with a history or a helper the same statement does not hold of the
-   invariant used (known finding K9). *)
+   paging question, whose column arithmetic divides by the window width capped by the widest candidate: no zero divisor
+   in a window of at least one column, which is what get_win_size guarantees) included. In vi mode with a history or a
+   helper the same statement does not hold of the invariant used (known finding K9). *)
 Theorem C17_read_never_panics_emacs :
   forall (U : UData) (cfg : config), is_emacs cfg = true ->
   (forall text p, bd text p -> bd text (fst (c_complete cfg text p)) /\ fst (c_complete cfg text p) <= p) ->
+  1 <= c_cols cfg ->
   forall history prompt initial kr inp, kr_inv kr -> fst (read_line U cfg prompt initial history kr inp) <> OPanic.
-Proof. intros U cfg He Hc history prompt initial kr inp. exact (read_never_panics_emacs U cfg He history Hc prompt initial kr inp). Qed.
+Proof. intros U cfg He Hc Hw history prompt initial kr inp. exact (read_never_panics_emacs U cfg He history Hc Hw prompt initial kr inp). Qed.
 Print Assumptions C17_read_never_panics_emacs.
 
 (* non-vacuity of the hypotheses: an Emacs-mode configuration with a helper whose completer (the scripted one of the
@@ -114,9 +116,10 @@ Example C17_read_hypotheses_hold :
   let cfg := mk_config Emacs CTCircular true 80 true [[102; 111; 111]; [102; 111; 111; 98; 97; 114]]%N [] VKNone [] in
   is_emacs cfg = true
   /\ (forall text p, bd text p -> bd text (fst (c_complete cfg text p)) /\ fst (c_complete cfg text p) <= p)
+  /\ 1 <= c_cols cfg
   /\ kr_inv (kr_new 60).
 Proof.
-  split; [reflexivity|]. split; [intros text p; apply script_complete_ok|].
+  split; [reflexivity|]. split; [intros text p; apply script_complete_ok|]. split; [cbn; lia|].
   split; [apply KillRingProofs.kr_new_ok; lia|cbn; discriminate].
 Qed.
 
